@@ -34,6 +34,10 @@ pub struct C06Case {
     /// async-std runtime threads of the watching zinoma (0 = default).
     #[serde(default)]
     pub runtime_threads: u8,
+    /// Every other change arrives with a modification time in the past (a file moved over the
+    /// input, a backup restored with its timestamps).
+    #[serde(default)]
+    pub past_mtimes: bool,
 }
 
 pub fn c06_case() -> impl Strategy<Value = C06Case> {
@@ -43,7 +47,7 @@ pub fn c06_case() -> impl Strategy<Value = C06Case> {
         1 => prop::collection::vec(any::<u8>(), 2..=4).prop_map(WStep::Burst),
         3 => any::<u8>().prop_map(WStep::QuickFollowUp),
     ];
-    (raw_graph(4), any::<bool>(), prop::collection::vec(step, 0..=4), prop::sample::select(vec![0u8, 0, 0, 1, 1, 2, 4])).prop_map(|(raw, prebuilt, steps, runtime_threads)| {
+    (raw_graph(4), any::<bool>(), prop::collection::vec(step, 0..=4), prop::sample::select(vec![0u8, 0, 0, 1, 1, 2, 4]), any::<bool>()).prop_map(|(raw, prebuilt, steps, runtime_threads, past_mtimes)| {
         let mut graph = build_graph(&raw);
         graph.nproj = 1;
         graph.root_named = false;
@@ -57,7 +61,7 @@ pub fn c06_case() -> impl Strategy<Value = C06Case> {
             t.deps = vec![];
             t.outdeps = e;
         }
-        C06Case { graph, prebuilt, steps, runtime_threads }
+        C06Case { graph, prebuilt, steps, runtime_threads, past_mtimes }
     })
 }
 
@@ -158,6 +162,9 @@ pub fn eval_c06(case: &C06Case, exclude_after_read: bool) -> CaseResult {
     let mut classes: BTreeSet<String> = BTreeSet::new();
     let mut excluded = 0u32;
     classes.insert(if case.prebuilt { "built-tree".into() } else { "clean-tree".into() });
+    if case.past_mtimes {
+        classes.insert("changes-with-past-mtime".into());
+    }
     if case.prebuilt {
         let o = run_zinoma(&sb, &dir, &args_roots, &[], Duration::from_secs(30), false);
         if !o.success() {
@@ -180,6 +187,9 @@ pub fn eval_c06(case: &C06Case, exclude_after_read: bool) -> CaseResult {
         // atomic replacement (write elsewhere, rename over): a reader sees the old or the new
         // content, never a truncated file
         sb.write("staging/x.tmp", v.as_bytes());
+        if case.past_mtimes && *counter % 2 == 1 {
+            set_mtime(&sb.path("staging/x.tmp"), 1_000_000_000 + *counter as i64, 0);
+        }
         let _ = std::fs::rename(sb.path("staging/x.tmp"), sb.path(&format!("proj/in_{}/x.txt", i)));
         inputs.insert(i, v);
     };
